@@ -63,7 +63,7 @@ var specs = map[string]*propSpec{
 			{Path: "./cmd/glyph", Touch: true, TouchLocalMaps: true},
 			{Path: "./pkg/server", Touch: true},
 			{Path: "./pkg/websocket"},
-			{Path: "./pkg/interpreter", Touch: true, L1: []string{"(*Interpreter).EvaluateExpression", "(*Interpreter).ExecuteStatement"}},
+			{Path: "./pkg/interpreter", Touch: true, TouchLocalMaps: true, L1: []string{"(*Interpreter).EvaluateExpression", "(*Interpreter).ExecuteStatement"}},
 			{Path: "./pkg/vm", Touch: true, L1: []string{"(*VM).step"}},
 			{Path: "./pkg/database", Touch: true, TouchLocalMaps: true},
 			{Path: "./pkg/redis", Touch: true, TouchLocalMaps: true},
